@@ -256,16 +256,16 @@ def run(ctx: Ctx) -> None:
     # rule that matches it does not silently drop it; which rule functions may finish without a token is C08's R8.1,
     # evaluated here under this property's id.
     from . import c08 as _c08
-    from ..report import SubCtx as _SubCtx
-    _c08.run(_SubCtx(ctx, {"R8.1": ("R6.7", "only #line and #warning directives are dropped by the lexer: every other directive reaches the error rule")}))  # type: ignore[arg-type]
+    from ..report import run_shared
+    run_shared(ctx, _c08.run, {"R8.1": ("R6.7", "only #line and #warning directives are dropped by the lexer: every other directive reaches the error rule")})
 
     # ---------------------------------------------------------------- R6.6
     # "... a line number that exists in the input (or is set by a #line directive)": the
     # re-basing arithmetic of the '#line' branch is what makes the reported number the
     # directive's; the rule is C10's R10.3, evaluated here under this property's id.
     from . import c10
-    from ..report import SubCtx
-    c10.run(SubCtx(ctx, {"R10.3": ("R6.6", "#line re-basing: line_offset = physical lineno - N + 1, file name from the same match (so an error after a #line directive names the directive's file and line)")}))  # type: ignore[arg-type]
+    from ..report import SubCtx, run_shared
+    run_shared(ctx, c10.run, {"R10.3": ("R6.6", "#line re-basing: line_offset = physical lineno - N + 1, file name from the same match (so an error after a #line directive names the directive's file and line)")})
 
 def _validate_after_parse_type(ctx: Ctx, pm: ParserModel) -> None:
     """Every `X, M = self._parse_type(...)`: on every completing path M.validate(...) is
